@@ -1,5 +1,5 @@
 (* C09/Run.v — evaluation of the models and specifications on harness cases. *)
-From Relic Require Import Base.Prelude Base.Enc Base.Val Generated.C09_gen C09.Model.
+From Relic Require Import Base.Prelude Base.Enc Base.Val Generated.C09_gen C09.Model C09.Upload.
 
 (* the k-th write gets the next sizes[k] bytes (fewer if the data runs out, possibly none); the rest is one last write.
    Same definition as cut() in harness/p/c09/hashers.go *)
@@ -96,6 +96,59 @@ Definition run_tar (v : val) : val :=
   | _ => VL []
   end.
 
+(* 9. a translated function against scripted effect outcomes: [which [outcome of effect 0, 1, ...] [opaque condition values]]
+      -> [result [[effect args...]...]]   which: 0 compress 1 CompressRequest goroutine 2 DecompressRequest 3 Middleware
+      4 buildRequest 5 tarAddStream *)
+Definition sworld := (list Z * list (list Z))%type.
+Definition eff_script (fn : Z) (args : list Z) (w : sworld) : Z * sworld :=
+  (nth (Z.to_nat fn) (fst w) E_UNKNOWN_EFFECT, (fst w, snd w ++ [fn :: args])).
+Definition run_errflow (v : val) : val :=
+  let which := vz (vnth 0 v) in
+  let outs := vzs (vnth 1 v) in
+  let opqs := vzs (vnth 2 v) in
+  let opq := fun k => negb (nth (Z.to_nat k) opqs 0 =? 0) in
+  let '(prog, res) :=
+    if which =? 0 then (compress_prog, compress_prog_result)
+    else if which =? 1 then (creq_goroutine_prog, creq_goroutine_prog_result)
+    else if which =? 2 then (dreq_prog, dreq_prog_result)
+    else if which =? 3 then (middleware_prog, middleware_prog_result)
+    else if which =? 4 then (br_prog, br_prog_result)
+    else (taraddstream_prog, taraddstream_prog_result) in
+  let '(e, w) := run_prog eff_script opq prog res (outs, []) in
+  VL [VZ e; VL (map VZs (snd w))].
+
+(* 10. one upload attempt through the framed codec: [[advertised item...] data fail [read size...] cut] ->
+       [content-encoding wire-length termination(-1 = never) server-view spec-view standalone-view client-error]
+       view = [0] (nothing digested) or [1 bytes] *)
+Definition vview (x : sview) : val := match x with SErr => VL [VZ 0] | SOk b => VL [VZ 1; VB b] end.
+Definition run_upload (v : val) : val :=
+  let adv := map vb (vl (vnth 0 v)) in
+  let src := mkUS (vb (vnth 1 v)) (vz (vnth 2 v)) (vzs (vnth 3 v)) in
+  let w := fc_client_wire adv src (vz (vnth 4 v)) in
+  let '(ce, body, term) := w in
+  VL [VB ce; VZ (zlen body); VZ (match term with Some e => e | None => -1 end);
+      vview (fc_server_view no_opaque w); vview (spec_view src); vview (standalone_view src); VZ (client_body_error w)].
+
+(* 11. the middleware on a Content-Encoding value: [ce [opaque condition values]] -> [handler-calls decoder-installed refusals codec-kind] *)
+Definition run_middleware (v : val) : val :=
+  let ce := vb (vnth 0 v) in
+  let opqs := vzs (vnth 1 v) in
+  let opq := fun k => negb (nth (Z.to_nat k) opqs 0 =? 0) in
+  let '(_, w) := run_prog (eff_middleware opq) opq middleware_prog middleware_prog_result (mkMW ce false 0 0) in
+  VL [VZ (m_ran w); of_bool (m_decoded w); VZ (m_refused w); VZ (decompress_kind ce); VZ (setup_kind ce)].
+
+(* 12. doRequest with failing sources: [nbases retries enc [[behaviour fail temporary]...]] -> as run_request *)
+Definition run_attempts (v : val) : val :=
+  let ins := map (fun a => mkAI (voutcome (vnth 0 a)) (mkUS [] (vz (vnth 1 a)) []) (vbool (vnth 2 a))) (vl (vnth 3 v)) in
+  let '(t, res) := do_request (vz (vnth 0 v)) (vz (vnth 1 v)) (vbool (vnth 2 v)) (map attempt_outcome ins) in
+  VL [VL (map (fun ao => VL [VZ (a_server (fst ao)); of_bool (a_enc (fst ao))]) t);
+      match res with
+      | DrAccepted s e c => VL [VZ 0; VZ s; of_bool e; VZ c]
+      | DrFailed _ => VL [VZ 1; VZ 0; VZ 0; VZ 0]
+      | DrExhausted => VL [VZ 2; VZ 0; VZ 0; VZ 0]
+      | DrFuel => VL [VZ 3; VZ 0; VZ 0; VZ 0]
+      end].
+
 Definition run (v : val) : val :=
   let k := vz (vnth 0 v) in
   let a := vnth 1 v in
@@ -107,4 +160,8 @@ Definition run (v : val) : val :=
   else if k =? 6 then run_request a
   else if k =? 7 then run_select a
   else if k =? 8 then run_tar a
+  else if k =? 9 then run_errflow a
+  else if k =? 10 then run_upload a
+  else if k =? 11 then run_middleware a
+  else if k =? 12 then run_attempts a
   else VL [].
